@@ -1,4 +1,5 @@
 import NmlVerif.Model.Geom
+import NmlVerif.Model.GeomHand
 import Mathlib.Analysis.SpecialFunctions.Sqrt
 import Mathlib.Analysis.SpecialFunctions.Trigonometric.Basic
 import Mathlib.Tactic.Ring
@@ -11,8 +12,14 @@ import Mathlib.Tactic.Linarith
 `GeomOps ℝ` interprets the operations of the generated code as the real-number operations (`sqrt = Real.sqrt`,
 `pi = Real.pi`, `==` = equality). The `*_eval` lemmas compute each generated definition once, as a case
 analysis over its branches, in terms of the reference formulas `dist3`, `frustumVolume`,
-`frustumLateralArea`, `sphereVolume`, `sphereArea`; every property theorem in `Props/C12.lean` goes through
+`frustumLateralArea`, `sphereVolume`, `sphereArea`; every property theorem in `Props/C12*.lean` goes through
 them, so a change of a Python formula (which changes the generated term) breaks these lemmas.
+
+Layout (one module per translated function, so that a changed function breaks only the obligations that depend on
+it): this file = number instance, reference formulas, `distance_to` / `length`; `Proofs/GeomVolume.lean`,
+`Proofs/GeomArea.lean` = `volume` / `surface_area`; `Proofs/GeomCell.lean` = `get_actual_proximal`, `get_segment`;
+`Proofs/GeomGetters.lean` = the three cell-level getters; `Proofs/GeomRounding.lean` = floating-point error model.
+Each also evaluates the HAND-WRITTEN model (`Model/GeomHand.lean`) so that `generated = hand` can be stated.
 -/
 namespace NmlVerif.Geom
 open NmlVerif.Gen.Geom
@@ -107,105 +114,6 @@ theorem length_noprox (d : Pt ℝ) (par : Option (Par ℝ)) :
     Segment.length (⟨none, d, par⟩ : Seg ℝ) = .error ⟨"Exception", "Cannot get length of segment "⟩ := by
   simp [Segment.length]
 
-open Classical in
-theorem volume_eval (p d : Pt ℝ) (par : Option (Par ℝ)) :
-    Segment.volume (mkSeg p d par) =
-      if Coincident p d then
-        (if p.diameter = d.diameter then .ok (sphereVolume (p.diameter / 2))
-         else .error ⟨"Exception", "Cannot get volume of segment "⟩)
-      else .ok (frustumVolume (dist3 p d) (p.diameter / 2) (d.diameter / 2)) := by
-  by_cases hc : Coincident p d
-  · have hc' := hc
-    obtain ⟨hx, hy, hz⟩ := hc'
-    by_cases hd : p.diameter = d.diameter
-    · simp [Segment.volume, mkSeg, hc, hx, hy, hz, hd, sphereVolume] <;> ring
-    · have : ¬ p.diameter / 2 = d.diameter / 2 := by
-        intro h; apply hd; linarith
-      simp [Segment.volume, mkSeg, hc, hx, hy, hz, hd, this]
-  · have h3 : ¬ ((p.x = d.x ∧ p.y = d.y) ∧ p.z = d.z) := fun h => hc ⟨h.1.1, h.1.2, h.2⟩
-    have hl := length_eval p d par
-    simp only [mkSeg] at hl
-    simp only [Segment.volume, mkSeg, hl, eq_real, Bool.and_eq_true, decide_eq_true_eq, h3, if_false, hc]
-    simp only [frustumVolume, ipow_real, add_real, mul_real, div_real, pi_real, lit_real, Nat.cast_ofNat,
-      powOverflows_real, Bool.false_eq_true, if_false]
-    congr 1
-    ring
-
-open Classical in
-theorem surface_area_eval (p d : Pt ℝ) (par : Option (Par ℝ)) :
-    Segment.surface_area (mkSeg p d par) =
-      if Coincident p d then
-        (if p.diameter = d.diameter then .ok (sphereArea (p.diameter / 2))
-         else .error ⟨"Exception", "Cannot get surface area of segment "⟩)
-      else .ok (frustumLateralArea (dist3 p d) (p.diameter / 2) (d.diameter / 2)) := by
-  by_cases hc : Coincident p d
-  · have hc' := hc
-    obtain ⟨hx, hy, hz⟩ := hc'
-    by_cases hd : p.diameter = d.diameter
-    · simp [Segment.surface_area, mkSeg, hc, hx, hy, hz, hd, sphereArea] <;> ring
-    · have : ¬ p.diameter / 2 = d.diameter / 2 := by
-        intro h; apply hd; linarith
-      simp [Segment.surface_area, mkSeg, hc, hx, hy, hz, hd, this]
-  · have h3 : ¬ ((p.x = d.x ∧ p.y = d.y) ∧ p.z = d.z) := fun h => hc ⟨h.1.1, h.1.2, h.2⟩
-    have hl := length_eval p d par
-    simp only [mkSeg] at hl
-    simp only [Segment.surface_area, mkSeg, hl, eq_real, Bool.and_eq_true, decide_eq_true_eq, h3, if_false, hc]
-    simp [frustumLateralArea]
-
-
-theorem volume_sphere_case (p d : Pt ℝ) (par : Option (Par ℝ)) (hc : Coincident p d) (hd : p.diameter = d.diameter) :
-    Segment.volume (mkSeg p d par) = .ok (sphereVolume (p.diameter / 2)) := by
-  rw [volume_eval, if_pos hc, if_pos hd]
-
-theorem volume_raise_case (p d : Pt ℝ) (par : Option (Par ℝ)) (hc : Coincident p d) (hd : p.diameter ≠ d.diameter) :
-    Segment.volume (mkSeg p d par) = .error ⟨"Exception", "Cannot get volume of segment "⟩ := by
-  rw [volume_eval, if_pos hc, if_neg hd]
-
-theorem volume_frustum_case (p d : Pt ℝ) (par : Option (Par ℝ)) (hc : ¬ Coincident p d) :
-    Segment.volume (mkSeg p d par) = .ok (frustumVolume (dist3 p d) (p.diameter / 2) (d.diameter / 2)) := by
-  rw [volume_eval, if_neg hc]
-
-theorem area_sphere_case (p d : Pt ℝ) (par : Option (Par ℝ)) (hc : Coincident p d) (hd : p.diameter = d.diameter) :
-    Segment.surface_area (mkSeg p d par) = .ok (sphereArea (p.diameter / 2)) := by
-  rw [surface_area_eval, if_pos hc, if_pos hd]
-
-theorem area_raise_case (p d : Pt ℝ) (par : Option (Par ℝ)) (hc : Coincident p d) (hd : p.diameter ≠ d.diameter) :
-    Segment.surface_area (mkSeg p d par) = .error ⟨"Exception", "Cannot get surface area of segment "⟩ := by
-  rw [surface_area_eval, if_pos hc, if_neg hd]
-
-theorem area_frustum_case (p d : Pt ℝ) (par : Option (Par ℝ)) (hc : ¬ Coincident p d) :
-    Segment.surface_area (mkSeg p d par) =
-      .ok (frustumLateralArea (dist3 p d) (p.diameter / 2) (d.diameter / 2)) := by
-  rw [surface_area_eval, if_neg hc]
-
-/-- two segments with the same coincidence status, diameters and distance have the same volume / refusal -/
-theorem volume_congr (p d p' d' : Pt ℝ) (par par' : Option (Par ℝ)) (hc : Coincident p' d' ↔ Coincident p d)
-    (h1 : p'.diameter = p.diameter) (h2 : d'.diameter = d.diameter) (hL : dist3 p' d' = dist3 p d) :
-    Segment.volume (mkSeg p' d' par') = Segment.volume (mkSeg p d par) := by
-  by_cases c : Coincident p d
-  · by_cases e : p.diameter = d.diameter
-    · rw [volume_sphere_case p d par c e, volume_sphere_case p' d' par' (hc.mpr c) (by rw [h1, h2, e]), h1]
-    · rw [volume_raise_case p d par c e, volume_raise_case p' d' par' (hc.mpr c) (by rw [h1, h2]; exact e)]
-  · rw [volume_frustum_case p d par c, volume_frustum_case p' d' par' (fun h => c (hc.mp h)), hL, h1, h2]
-
-theorem area_congr (p d p' d' : Pt ℝ) (par par' : Option (Par ℝ)) (hc : Coincident p' d' ↔ Coincident p d)
-    (h1 : p'.diameter = p.diameter) (h2 : d'.diameter = d.diameter) (hL : dist3 p' d' = dist3 p d) :
-    Segment.surface_area (mkSeg p' d' par') = Segment.surface_area (mkSeg p d par) := by
-  by_cases c : Coincident p d
-  · by_cases e : p.diameter = d.diameter
-    · rw [area_sphere_case p d par c e, area_sphere_case p' d' par' (hc.mpr c) (by rw [h1, h2, e]), h1]
-    · rw [area_raise_case p d par c e, area_raise_case p' d' par' (hc.mpr c) (by rw [h1, h2]; exact e)]
-  · rw [area_frustum_case p d par c, area_frustum_case p' d' par' (fun h => c (hc.mp h)), hL, h1, h2]
-
-/-- the value does not depend on the `parent` member -/
-theorem volume_par_irrel (p d : Pt ℝ) (par par' : Option (Par ℝ)) :
-    Segment.volume (mkSeg p d par) = Segment.volume (mkSeg p d par') := by
-  rw [volume_eval, volume_eval]
-
-theorem surface_area_par_irrel (p d : Pt ℝ) (par par' : Option (Par ℝ)) :
-    Segment.surface_area (mkSeg p d par) = Segment.surface_area (mkSeg p d par') := by
-  rw [surface_area_eval, surface_area_eval]
-
 /-! ## real-number facts about the reference formulas -/
 
 def Pt.translate (tx ty tz : ℝ) (a : Pt ℝ) : Pt ℝ := ⟨a.x + tx, a.y + ty, a.z + tz, a.diameter⟩
@@ -286,92 +194,46 @@ theorem lerp_one (a b : Pt ℝ) : lerp 1 a b = b := by
 theorem lerp_zero (a b : Pt ℝ) : lerp 0 a b = a := by
   cases a; simp [lerp]
 
-section cell
-variable (gs : Nat → Except Err (Seg ℝ)) (ap : Nat → Except Err (Pt ℝ))
 
-theorem get_actual_proximal_own (id : Nat) (seg : Seg ℝ) (p : Pt ℝ) (h1 : gs id = .ok seg)
-    (h2 : seg.proximal = some p) : Cell.get_actual_proximal gs ap id = .ok p := by
-  simp [Cell.get_actual_proximal, h1, h2]
+/-- `r₁² + r₁r₂ + r₂² ≥ 0` whatever the signs: the frustum volume is non-negative for ANY radii -/
+theorem frustumVolume_nonneg' (L r1 r2 : ℝ) (hL : 0 ≤ L) : 0 ≤ frustumVolume L r1 r2 := by
+  unfold frustumVolume
+  have h : 0 ≤ r1 ^ 2 + r1 * r2 + r2 ^ 2 := by nlinarith [sq_nonneg (r1 + r2), sq_nonneg r1, sq_nonneg r2]
+  have := Real.pi_pos
+  positivity
 
-theorem get_actual_proximal_end (id : Nat) (seg ps : Seg ℝ) (par : Par ℝ) (h1 : gs id = .ok seg)
-    (h2 : seg.proximal = none) (h3 : seg.parent = some par) (h4 : gs par.segments = .ok ps)
-    (h5 : par.fraction_along = 1) : Cell.get_actual_proximal gs ap id = .ok ps.distal := by
-  simp [Cell.get_actual_proximal, h1, h2, h3, h4, h5]
+/-- the lateral area is non-negative as soon as the radii sum to a non-negative number -/
+theorem frustumLateralArea_nonneg' (L r1 r2 : ℝ) (h : 0 ≤ r1 + r2) : 0 ≤ frustumLateralArea L r1 r2 := by
+  unfold frustumLateralArea; have := Real.pi_pos; positivity
 
-theorem get_actual_proximal_step (id : Nat) (seg ps : Seg ℝ) (par : Par ℝ) (pp : Pt ℝ) (h1 : gs id = .ok seg)
-    (h2 : seg.proximal = none) (h3 : seg.parent = some par) (h4 : gs par.segments = .ok ps)
-    (h5 : ap par.segments = .ok pp) :
-    Cell.get_actual_proximal gs ap id = .ok (lerp par.fraction_along pp ps.distal) := by
-  by_cases f1 : par.fraction_along = 1
-  · rw [get_actual_proximal_end gs ap id seg ps par h1 h2 h3 h4 f1, f1, lerp_one]
-  · by_cases f0 : par.fraction_along = 0
-    · simp [Cell.get_actual_proximal, h1, h2, h3, h4, h5, f0, lerp_zero]
-    · simp only [Cell.get_actual_proximal, h1, h2, h3, h4, h5, eq_real, lit_real, Nat.cast_one, Nat.cast_zero,
-        f1, f0, decide_false, Bool.false_eq_true, if_false, add_real, sub_real, mul_real, lerp]
-      congr 2 <;> ring
+/-! ## the hand-written model at ℝ: `x ** n`, distance, coincidence test, radius -/
 
-theorem get_segment_length_own (id : Nat) (seg : Seg ℝ) (p : Pt ℝ) (h1 : gs id = .ok seg)
-    (h2 : seg.proximal = some p) : Cell.get_segment_length gs ap id = Segment.length seg := by
-  simp [Cell.get_segment_length, h1, h2]
+theorem hand_pow_real (x : ℝ) (n : Nat) : Hand.pow x n = .ok (x ^ n) := by
+  simp [Hand.pow]
 
-theorem get_segment_length_inh (id : Nat) (seg : Seg ℝ) (q : Pt ℝ) (h1 : gs id = .ok seg)
-    (h2 : seg.proximal = none) (h3 : ap id = .ok q) :
-    Cell.get_segment_length gs ap id = Segment.length (mkSeg q seg.distal none) := by
-  rw [length_eval, dist3_comm]
-  simp [Cell.get_segment_length, h1, h2, h3, distance_to_eval]
+theorem hand_dist_eval (a b : Pt ℝ) : Hand.dist a b = .ok (dist3 a b) := by
+  simp [Hand.dist, hand_pow_real, dist3]
 
-theorem get_segment_volume_own (id : Nat) (seg : Seg ℝ) (p : Pt ℝ) (h1 : gs id = .ok seg)
-    (h2 : seg.proximal = some p) : Cell.get_segment_volume gs ap id = Segment.volume seg := by
-  simp [Cell.get_segment_volume, h1, h2]
+theorem hand_coincident_iff (a b : Pt ℝ) : Hand.coincident a b = true ↔ Coincident a b := by
+  simp [Hand.coincident, Coincident, and_assoc]
 
-theorem get_segment_volume_inh (id : Nat) (seg : Seg ℝ) (q : Pt ℝ) (h1 : gs id = .ok seg)
-    (h2 : seg.proximal = none) (h3 : ap id = .ok q) :
-    Cell.get_segment_volume gs ap id = Segment.volume (mkSeg q seg.distal none) := by
-  simp [Cell.get_segment_volume, h1, h2, h3, mkSeg]
+theorem hand_radius (p : Pt ℝ) : Hand.radius p = p.diameter / 2 := by
+  simp [Hand.radius]
 
-theorem get_segment_surface_area_own (id : Nat) (seg : Seg ℝ) (p : Pt ℝ) (h1 : gs id = .ok seg)
-    (h2 : seg.proximal = some p) : Cell.get_segment_surface_area gs ap id = Segment.surface_area seg := by
-  simp [Cell.get_segment_surface_area, h1, h2]
+theorem gen_eq_hand_distance_to' (a b : Pt ℝ) : Point3DWithDiam.distance_to a b = Hand.distanceTo a b := by
+  rw [distance_to_eval, Hand.distanceTo, hand_dist_eval]
 
-theorem get_segment_surface_area_inh (id : Nat) (seg : Seg ℝ) (q : Pt ℝ) (h1 : gs id = .ok seg)
-    (h2 : seg.proximal = none) (h3 : ap id = .ok q) :
-    Cell.get_segment_surface_area gs ap id = Segment.surface_area (mkSeg q seg.distal none) := by
-  simp [Cell.get_segment_surface_area, h1, h2, h3, mkSeg]
+theorem gen_eq_hand_length' (s : Seg ℝ) : Segment.length s = Hand.length s := by
+  obtain ⟨prox, d, par⟩ := s
+  cases prox with
+  | none => rw [length_noprox]; rfl
+  | some p =>
+    have := length_eval p d par
+    simp only [mkSeg] at this
+    rw [this]; simp [Hand.length, hand_dist_eval]
 
-end cell
-
-/-- **Specification of the inherited proximal point**, directly from the parent / `fraction_along` definition:
-    a segment's actual proximal point is its own proximal point when it has one; otherwise it lies on the parent,
-    at `fraction_along` between the parent's actual proximal point and the parent's distal point (at the
-    parent's distal point when `fraction_along = 1`, whatever the parent's own proximal is). -/
-inductive Inherits (c : Cell ℝ) : Nat → Pt ℝ → Prop
-  | own {id : Nat} {seg : Seg ℝ} {p : Pt ℝ} :
-      getSegment c id = .ok seg → seg.proximal = some p → Inherits c id p
-  | atEnd {id : Nat} {seg ps : Seg ℝ} {par : Par ℝ} :
-      getSegment c id = .ok seg → seg.proximal = none → seg.parent = some par →
-      getSegment c par.segments = .ok ps → par.fraction_along = 1 → Inherits c id ps.distal
-  | along {id : Nat} {seg ps : Seg ℝ} {par : Par ℝ} {pp : Pt ℝ} :
-      getSegment c id = .ok seg → seg.proximal = none → seg.parent = some par →
-      getSegment c par.segments = .ok ps → Inherits c par.segments pp →
-      Inherits c id (lerp par.fraction_along pp ps.distal)
-
-/-- fuel sufficiency and correctness of the recursion: whenever the specification assigns a point, the model of
-    `get_actual_proximal` returns it for every sufficiently large fuel -/
-theorem actualProximal_of_inherits (c : Cell ℝ) (id : Nat) (q : Pt ℝ) (h : Inherits c id q) :
-    ∃ n, ∀ fuel, n ≤ fuel → actualProximal c fuel id = .ok q := by
-  induction h with
-  | @own id seg p h1 h2 =>
-    refine ⟨1, fun fuel hf => ?_⟩
-    obtain ⟨k, rfl⟩ : ∃ k, fuel = k + 1 := ⟨fuel - 1, by omega⟩
-    exact get_actual_proximal_own _ _ id seg p h1 h2
-  | @atEnd id seg ps par h1 h2 h3 h4 h5 =>
-    refine ⟨1, fun fuel hf => ?_⟩
-    obtain ⟨k, rfl⟩ : ∃ k, fuel = k + 1 := ⟨fuel - 1, by omega⟩
-    exact get_actual_proximal_end _ _ id seg ps par h1 h2 h3 h4 h5
-  | @along id seg ps par pp h1 h2 h3 h4 _ ih =>
-    obtain ⟨n, hn⟩ := ih
-    refine ⟨n + 1, fun fuel hf => ?_⟩
-    obtain ⟨k, rfl⟩ : ∃ k, fuel = k + 1 := ⟨fuel - 1, by omega⟩
-    exact get_actual_proximal_step _ _ id seg ps par pp h1 h2 h3 h4 (hn k (by omega))
+theorem hand_lerpPt (f : ℝ) (a b : Pt ℝ) : Hand.lerpPt f a b = lerp f a b := by
+  simp only [Hand.lerpPt, lerp, add_real, sub_real, mul_real, lit_real, Nat.cast_one]
+  congr 1 <;> ring
 
 end NmlVerif.Geom
